@@ -408,6 +408,15 @@ void C89CodePrinter::bvisit(const Infty &x)
         throw SymEngineException("Not supported");
     str_ = s.str();
 }
+void C89CodePrinter::bvisit(const Gamma &x)
+{
+    // C89 has no gamma function; glibc's gamma() is lgamma()
+    throw SymEngineException("Not supported");
+}
+void C89CodePrinter::bvisit(const LogGamma &x)
+{
+    throw SymEngineException("Not supported");
+}
 void C89CodePrinter::_print_pow(std::ostringstream &o,
                                 const RCP<const Basic> &a,
                                 const RCP<const Basic> &b)
